@@ -90,7 +90,9 @@ def breaks():
              ('`code  \nspan`', '<code>code   span</code>'), ('`code\\\nspan`', '<code>code\\ span</code>'), ('<a href="foo  \nbar">', '<a href="foo  \nbar">'),
              ('<a href="foo\\\nbar">', '<a href="foo\\\nbar">'), ('foo\nbaz', 'foo\nbaz'), ('foo \n baz', 'foo\nbaz'), ('foo \nbaz', 'foo\nbaz'),
              ('foo\\', 'foo\\'), ('foo  ', 'foo'), ('a\\\\\nb', 'a\\\nb'), ('**s  \nt** u', '<strong>s<br />\nt</strong> u'),
-             ('[t  \nu](/d)', '<a href="/d">t<br />\nu</a>')]
+             ('[t  \nu](/d)', '<a href="/d">t<br />\nu</a>'),
+             # an odd number of backslashes before the line ending: the last one makes the hard break
+             ('a\\\\\\\nb', 'a\\<br />\nb'), ('a\\\\\\\\\nb', 'a\\\\\nb'), ('a\\\\\\\\\\\nb', 'a\\\\<br />\nb'), ('C:\\\\t\\\\\\\nis', 'C:\\t\\<br />\nis')]
     for md, want in cases:
         yield ('break', md, want, dict(md=md))
 
@@ -98,11 +100,11 @@ def breaks():
 # ------------------------------------------------------------------------------------------- inline links / images (6.3, 6.4)
 def links():
     texts = [('t', 't', 't'), ('t *e*', 't <em>e</em>', 't e'), ('`c`', '<code>c</code>', 'c'), ('a [b] c', 'a [b] c', 'a [b] c'), ('a \\] c', 'a ] c', 'a ] c'),
-             ('', '', '')]
+             ('', '', ''), ('a <b>x</b> c', 'a <b>x</b> c', 'a <b>x</b> c'), ('<!-- k -->', '<!-- k -->', '<!-- k -->')]
     dests = [('/u', '/u'), ('</u v>', '/u%20v'), ('<>', ''), ('', ''), ('/u(a)b', '/u(a)b'), ('/u\\(a', '/u(a'), ('<a(b>', 'a(b'),
              ('http://x.y/?q=1#f', 'http://x.y/?q=1#f'), ('/a&amp;b', '/a&amp;b'), ('#frag', '#frag'), ('<a\\>b>', 'a%3Eb')]
     titles = [('', None), (' "T"', 'T'), (" 'T'", 'T'), (' (T)', 'T'), (' "a \\" b"', 'a " b'), ('\n"T"', 'T'), (' "T"  ', 'T'), (' "x &amp; \'y\'"', "x & 'y'"),
-              ("  '(p)'", '(p)'), (' ""', None)]
+              ("  '(p)'", '(p)'), (' ""', None), (' (f\\(x\\))', 'f(x)'), (' "\\"q\\""', '"q"')]
     for (tm, th, tp), (dm, dh), (ttm, tt), lead, bang in itertools.product(texts, dests, titles, ('', ' '), ('', '!')):
         if dm == '' and ttm and not ttm.startswith((' ', '\n')):
             continue
